@@ -176,6 +176,10 @@ def run(idx, rep, tier):
     _r2_stop_me(idx, rep)
     _r2_handle_if(idx, rep)
     _r2_signal(idx, rep)
+    # the per-csvpath override of 'fail': validation-mode tokens -> fail_on_validation_errors
+    from . import valmode
+    valmode.check(idx, rep, "R2", ["fail"])
+    _r2_do_i_fail(idx, rep)
 
     # ------------------------------------------------------------------ R3
     _r3(idx, rep)
@@ -295,6 +299,34 @@ def _r2_signal(idx, rep):
         else:
             rep.check(K.is_const(v, False) and fi.qual in ("CsvPaths.__init__", "CsvPaths.clear_run_coordination"), "R2",
                       f"{fi.file}::{fi.qual} store _fail_all", f"stores {unparse(v)} in {fi.qual}", K.where(fi, s["stmt"]))
+
+
+def _r2_do_i_fail(idx, rep):
+    """ErrorCommsManager.do_i_fail: the csvpath's override when it is not None, else 'fail' in the policy"""
+    fi = idx.method("ErrorCommsManager", "do_i_fail")
+    rep.analysed(fi)
+    ok, detail = do_i_table(idx, fi, "fail_on_validation_errors", "FAIL")
+    rep.check(ok, "R2", f"{fi.file}::ErrorCommsManager.do_i_fail table", detail, K.where(fi, fi.node))
+
+
+def do_i_table(idx, fi, override_prop, member):
+    """decision table of one ErrorCommsManager.do_i_* method"""
+    key = f"self._csvpath.{override_prop}"
+    it = Interp(idx, types={"self": "ErrorCommsManager"},
+                domains={"self._csvpath": [Obj("self._csvpath"), None], key: [True, False, None]})
+    paths = it.run_all(fi)
+    for p in paths:
+        cp = p.atom("self._csvpath")
+        ov = p.atom(key)
+        kind, v = p.result
+        vt = v.text if isinstance(v, Residual) else v
+        if cp is not None and ov is not None:
+            if vt is not ov:
+                return False, f"with override {ov!r} returns {vt!r}"
+        else:
+            if vt != f"OnError.{member}.value in self._policy":
+                return False, f"without an override returns `{vt}`, expected `OnError.{member}.value in self._policy`"
+    return True, f"{len(paths)} paths"
 
 
 def _r3(idx, rep):
